@@ -2,7 +2,8 @@
 //! only) doing one `batch_request` against a scripted in-process HTTP server on 127.0.0.1:0.
 //! One case per line (same protocol as modelrun/httpbatch_driver.ml):
 //!     <idkind:n|s> <pre> <n> <item> <item> ...
-//! A fresh client (ids Number / String) and a fresh server per case.  If pre > 0 a preliminary, correctly
+//! A fresh client (ids Number / String) per case, URL path `/c<case number>`; one server for the process whose
+//! script is replaced before each case.  If pre > 0 a preliminary, correctly
 //! answered batch of `pre` entries ("pre0".. no params) moves the id counter to `pre`.  Then THE batch of n
 //! entries ("m0".."m{n-1}", no params, R = Box<RawValue>) is made (ids pre .. pre+n); the server answers it
 //! with the array of the items, in this order:
@@ -17,7 +18,7 @@
 //!              entry = ok:<rawhex> | call:<code>:<msghex>:<-|h<datahex>>
 //!      or  err:parse | err:invalidid | err:notpending | err:occupied | err:timeout | err:transport
 //!          | err:other:<hex of Debug>
-//!      or  ?bad-line | ?pre-failed:<class> | ?timeout | PANIC <hex>
+//!      or  ?bad-line | ?pre-failed:<class> | ?client:<class> | ?timeout | PANIC <hex>
 use jrv::*;
 use jsonrpsee::core::client::{BatchResponse, ClientT, Error, IdKind};
 use jsonrpsee::core::params::BatchRequestBuilder;
@@ -25,8 +26,7 @@ use jsonrpsee::http_client::HttpClientBuilder;
 use jsonrpsee::rpc_params;
 use jsonrpsee::types::InvalidRequestId;
 use serde_json::value::RawValue;
-use std::sync::Arc;
-use std::sync::atomic::{AtomicUsize, Ordering};
+use std::sync::{Arc, Mutex};
 use std::time::Duration;
 use tokio::io::{AsyncReadExt, AsyncWriteExt};
 use tokio::net::{TcpListener, TcpStream};
@@ -162,8 +162,13 @@ fn reply(case: &Case, seq: usize, req: &[u8]) -> Option<Vec<u8>> {
 	Some(out)
 }
 
-/// Keep-alive loop on one connection: request head, Content-Length body, scripted answer.
-async fn serve_conn(mut sock: TcpStream, case: Arc<Case>, seq: Arc<AtomicUsize>) -> Option<()> {
+/// The script of the case in progress: (case number, case, number of requests answered so far).
+type Shared = Arc<Mutex<(u64, Option<Arc<Case>>, usize)>>;
+
+/// Keep-alive loop on one connection: request head, Content-Length body, scripted answer.  The script is looked
+/// up when a request is complete, and only a request whose path is `/c<case number>` of the case in progress is
+/// served from it (anything else, e.g. a straggler of an earlier case, gets a 500 and does not count).
+async fn serve_conn(mut sock: TcpStream, shared: Shared) -> Option<()> {
 	let mut buf: Vec<u8> = Vec::new();
 	let mut chunk = [0u8; 8192];
 	loop {
@@ -186,7 +191,18 @@ async fn serve_conn(mut sock: TcpStream, case: Arc<Case>, seq: Arc<AtomicUsize>)
 			}
 			buf.extend_from_slice(&chunk[..k]);
 		}
-		let body = reply(&case, seq.fetch_add(1, Ordering::SeqCst), &buf[head_end..head_end + len]);
+		let path_no: Option<u64> = head.split_whitespace().nth(1).and_then(|p| p.strip_prefix("/c")?.parse().ok());
+		let cur = {
+			let mut g = shared.lock().unwrap_or_else(|e| e.into_inner());
+			match (path_no, g.1.clone()) {
+				(Some(no), Some(case)) if no == g.0 => {
+					g.2 += 1;
+					Some((case, g.2 - 1))
+				}
+				_ => None,
+			}
+		};
+		let body = cur.and_then(|(case, seq)| reply(&case, seq, &buf[head_end..head_end + len]));
 		let mut resp = match &body {
 			Some(b) => format!("HTTP/1.1 200 OK\r\ncontent-type: application/json\r\ncontent-length: {}\r\n\r\n", b.len()),
 			None => "HTTP/1.1 500 Internal Server Error\r\ncontent-length: 0\r\n\r\n".to_string(),
@@ -196,6 +212,27 @@ async fn serve_conn(mut sock: TcpStream, case: Arc<Case>, seq: Arc<AtomicUsize>)
 		tokio::time::timeout(IO, sock.write_all(&resp)).await.ok()?.ok()?;
 		buf.drain(..head_end + len);
 	}
+}
+
+/// One listener and one accept loop for the whole process; accept errors are retried.
+async fn start_server(shared: Shared) -> Option<std::net::SocketAddr> {
+	for _ in 0..100 {
+		if let Ok(listener) = TcpListener::bind("127.0.0.1:0").await {
+			if let Ok(addr) = listener.local_addr() {
+				tokio::spawn(async move {
+					loop {
+						match listener.accept().await {
+							Ok((sock, _)) => drop(tokio::spawn(serve_conn(sock, shared.clone()))),
+							Err(_) => tokio::time::sleep(Duration::from_millis(5)).await,
+						}
+					}
+				});
+				return Some(addr);
+			}
+		}
+		tokio::time::sleep(Duration::from_millis(50)).await;
+	}
+	None
 }
 
 fn err_class(e: &Error) -> String {
@@ -230,51 +267,51 @@ async fn batch(client: &impl ClientT, prefix: &str, n: u64) -> Result<(usize, us
 	Ok((ok, failed, entries))
 }
 
-async fn run_case(line: &str) -> String {
+async fn run_case(line: &str, addr: std::net::SocketAddr, shared: &Shared) -> String {
 	let case = match parse_case(line) {
 		Some(c) => Arc::new(c),
 		None => return "?bad-line".into(),
 	};
-	let listener = TcpListener::bind("127.0.0.1:0").await.expect("bind");
-	let addr = listener.local_addr().expect("local_addr");
-	let (scase, seq) = (case.clone(), Arc::new(AtomicUsize::new(0)));
-	let server = tokio::spawn(async move {
-		let mut conns = tokio::task::JoinSet::new();
-		while let Ok((sock, _)) = listener.accept().await {
-			conns.spawn(serve_conn(sock, scase.clone(), seq.clone()));
-		}
-	});
-	let client = HttpClientBuilder::new()
+	let no = {
+		let mut g = shared.lock().unwrap_or_else(|e| e.into_inner());
+		*g = (g.0 + 1, Some(case.clone()), 0);
+		g.0
+	};
+	let client = match HttpClientBuilder::new()
 		.request_timeout(Duration::from_secs(5))
 		.id_format(if case.idstr { IdKind::String } else { IdKind::Number })
-		.build(format!("http://{addr}"))
-		.expect("client");
-	let out = async {
-		if case.pre > 0 {
-			match batch(&client, "pre", case.pre).await {
-				Ok((ok, 0, _)) if ok as u64 == case.pre => {}
-				Ok(_) => return "?pre-failed:wrong-answer".to_string(),
-				Err(e) => return format!("?pre-failed:{}", err_class(&e)),
-			}
-		}
-		match batch(&client, "m", case.n).await {
-			Ok((ok, failed, entries)) => format!("batch:s={}/f={}:[{}]", ok, failed, entries.join(",")),
-			Err(e) => format!("err:{}", err_class(&e)),
+		.build(format!("http://{addr}/c{no}"))
+	{
+		Ok(c) => c,
+		Err(e) => return format!("?client:{}", err_class(&e)),
+	};
+	if case.pre > 0 {
+		match batch(&client, "pre", case.pre).await {
+			Ok((ok, 0, _)) if ok as u64 == case.pre => {}
+			Ok(_) => return "?pre-failed:wrong-answer".to_string(),
+			Err(e) => return format!("?pre-failed:{}", err_class(&e)),
 		}
 	}
-	.await;
-	drop(client);
-	server.abort(); // drops the listener and the JoinSet (which aborts the connection tasks)
-	out
+	match batch(&client, "m", case.n).await {
+		Ok((ok, failed, entries)) => format!("batch:s={}/f={}:[{}]", ok, failed, entries.join(",")),
+		Err(e) => format!("err:{}", err_class(&e)),
+	}
 }
 
 fn main() {
 	let rt = tokio::runtime::Builder::new_multi_thread().worker_threads(2).enable_all().build().unwrap();
 	std::panic::set_hook(Box::new(|_| {}));
+	let shared: Shared = Arc::new(Mutex::new((0, None, 0)));
+	let Some(addr) = rt.block_on(start_server(shared.clone())) else {
+		eprintln!("httpbatch: cannot bind a listener on 127.0.0.1");
+		std::process::exit(2);
+	};
 	for_each_line(|l| {
 		let r = std::panic::catch_unwind(std::panic::AssertUnwindSafe(|| {
 			rt.block_on(async {
-				tokio::time::timeout(Duration::from_secs(10), run_case(l)).await.unwrap_or_else(|_| "?timeout".into())
+				let r = tokio::time::timeout(Duration::from_secs(10), run_case(l, addr, &shared)).await;
+				shared.lock().unwrap_or_else(|e| e.into_inner()).1 = None; // nothing is served between cases
+				r.unwrap_or_else(|_| "?timeout".into())
 			})
 		}));
 		r.unwrap_or_else(|e| {
